@@ -49,94 +49,82 @@ std::optional<sqf::runtime::fileio::pathinfo> sqf::fileio::impl_default::get_inf
         return {};
     }
 
-    // Prepare local tree-node list
-    std::vector<std::shared_ptr<path_element>> nodes;
-    nodes.push_back(m_virtual_file_root);
-
+    // Relative requests are taken against the directory of the current file
 #if WIN32
-    if (virt[0] != '/' && !(virt.length() >= 2 && virt[1] == ':'))
+    bool relative = virt[0] != '/' && !(virt.length() >= 2 && virt[1] == ':');
 #else
-    if (virt[0] != '/')
+    bool relative = virt[0] != '/';
 #endif
-    { // Navigate current virtual path if relative
+    std::string full = virt;
+    if (relative && !current.virtual_.empty())
+    {
+        auto current_dir = current.virtual_;
+        std::replace(current_dir.begin(), current_dir.end(), '\\', '/');
+        auto last_separator = current_dir.find_last_of('/');
+        current_dir = last_separator == std::string::npos ? std::string() : current_dir.substr(0, last_separator);
+        full = current_dir + "/" + virt;
+    }
 
-        // Iterate over the whole existing virtual path
-        if (!current.virtual_.empty())
+    // Normalise: resolve "." and ".." lexically. A path that climbs above the
+    // virtual root names nothing that is mapped.
+    std::vector<std::string> segments;
+    {
+        std::istringstream stream_virt(full);
+        for (auto it = std::istream_iterator<StringDelimiter<'/'>>{ stream_virt }; it != std::istream_iterator<StringDelimiter<'/'>>{}; ++it)
         {
-            virtFull = current.virtual_ + "/" + virt;
-
-            std::istringstream stream_virt(current.virtual_);
-            for (auto it = std::istream_iterator<StringDelimiter<'/'>>{ stream_virt }; it != std::istream_iterator<StringDelimiter<'/'>>{}; ++it)
+            if (it->empty() || *it == "."s) { /* skip empty */ continue; }
+            if (*it == ".."s)
             {
-                if (it->empty())
-                { /* skip empty */
-                    continue;
-                }
-                if (nodes.back()->next.find(*it) != nodes.back()->next.end())
+                if (segments.empty())
                 {
-                    nodes.push_back(nodes.back()->next.at(*it));
-                    log(logmessage::fileio::ResolveVirtualNavigateDown(current.physical, virt, *it));
-                }
-                else
-                { /* Dead-End. File Not Found. */
                     log(logmessage::fileio::ResolveVirtualFileNotFound(current.physical, virt));
                     return {};
                 }
-            }
-        }
-    }
-
-    // Explore further until we hit dead-end
-    {
-        std::istringstream stream_virt(virt);
-        auto it = std::istream_iterator<StringDelimiter<'/'>>{ stream_virt };
-        for (; it != std::istream_iterator<StringDelimiter<'/'>>{}; ++it)
-        {
-            if (it->empty()) { /* skip empty */ continue; }
-            if (*it == ".."s && !nodes.empty())
-            {
-                // Move dir-up
-                nodes.pop_back();
+                segments.pop_back();
                 log(logmessage::fileio::ResolveVirtualNavigateUp(current.physical, virt));
             }
             else
             {
-                if (nodes.empty())
-                {
-                    log(logmessage::fileio::ResolveVirtualNavigateNoNodesLeftForExploring(current.physical, virt));
-                    break;
-                }
-                else if (nodes.back()->next.find(*it) == nodes.back()->next.end())
-                { /* Dead-End.  */
-                    log(logmessage::fileio::ResolveVirtualNavigateDeadEnd(current.physical, virt, *it));
-                    break;
-                }
-                else
-                {
-                    nodes.push_back(nodes.back()->next.at(*it));
-                    log(logmessage::fileio::ResolveVirtualNavigateDown(current.physical, virt, *it));
-                }
+                segments.push_back(*it);
             }
         }
-
-        
-        if (nodes.empty())
-        { /* Invalid path from our perspective. Return File-Not-Found. */
-
-            log(logmessage::fileio::ResolveVirtualFileNotFound(current.physical, virt));
-            return {};
-        }
-
-        // Set virtual to remaining and ensure no further dir-up occur
-        virt.clear();
-        for (; it != std::istream_iterator<StringDelimiter<'/'>>{}; ++it)
-        {
-            if (*it == ".."s) { /* skip dir-up */ continue; }
-            virt.append("/");
-            virt.append(*it);
-        }
-        log(logmessage::fileio::ResolveVirtualGotRemainder(current.physical, virt));
     }
+    virtFull.clear();
+    for (auto& segment : segments)
+    {
+        virtFull.append("/");
+        virtFull.append(segment);
+    }
+
+    // Walk the mapping tree as deep as the path goes ...
+    std::vector<std::shared_ptr<path_element>> nodes;
+    nodes.push_back(m_virtual_file_root);
+    size_t consumed = 0;
+    for (; consumed < segments.size(); ++consumed)
+    {
+        auto next = nodes.back()->next.find(segments[consumed]);
+        if (next == nodes.back()->next.end())
+        { /* Dead-End.  */
+            log(logmessage::fileio::ResolveVirtualNavigateDeadEnd(current.physical, virt, segments[consumed]));
+            break;
+        }
+        nodes.push_back(next->second);
+        log(logmessage::fileio::ResolveVirtualNavigateDown(current.physical, virt, segments[consumed]));
+    }
+    // ... and fall back to the deepest prefix that actually is mapped to a directory
+    while (nodes.size() > 1 && nodes.back()->physical.empty())
+    {
+        nodes.pop_back();
+        --consumed;
+    }
+    // What is left of the path is looked up below that directory
+    virt.clear();
+    for (; consumed < segments.size(); ++consumed)
+    {
+        virt.append("/");
+        virt.append(segments[consumed]);
+    }
+    log(logmessage::fileio::ResolveVirtualGotRemainder(current.physical, virt));
     // Check every physical path in current tree_element if the file exists
     for (auto& phys : nodes.back()->physical)
     {
